@@ -24,7 +24,9 @@ theorem run_cons {c : Cfg} {s : State} {t : Tid} {op : Op} {rest : Sched} :
       ((run c (step c s t op).1 rest).1, (t, (step c s t op).2) :: (run c (step c s t op).1 rest).2) :=
   rfl
 
-/-- `s` is the interleaved state, `s'` the state of thread `i`'s serial run -/
+/-- `s` is the interleaved state, `s'` the state of thread `i`'s serial run: they agree on thread
+    `i`'s slots, tokens, objects, and on the registry at the ids of thread `i`'s live objects;
+    the serial state has no objects of other threads -/
 structure Sim (i : Tid) (s s' : State) : Prop where
   made : s.made (.thread i) = s'.made (.thread i)
   work : s.work (.thread i) = s'.work (.thread i)
@@ -101,6 +103,8 @@ theorem step_code (s : State) (t : Tid) (op : Op) : step Cfg.code s t op = stepC
 theorem upd_apply {α β : Type} [DecidableEq α] (f : α → β) (a : α) (b : β) (x : α) :
     upd f a b x = if x = a then b else f x := rfl
 
+/-- frame: a step of thread `t` leaves other threads' slots, tokens and objects alone, and only
+    writes registry keys that are ids of live objects of `t` -/
 theorem step_frame (s : State) (t : Tid) (op : Op) :
     (∀ j, j ≠ t → (stepC s t op).1.made (.thread j) = s.made (.thread j)) ∧
     (∀ j, j ≠ t → (stepC s t op).1.work (.thread j) = s.work (.thread j)) ∧
@@ -141,6 +145,7 @@ theorem sim_other {i j : Tid} {s s' : State} {op : Op} (hs : Sim i s s') (hi : I
     have := hi.inj _ _ _ hm hl
     simp at this; exact hj this.1
 
+/-- a step of thread `i` that is allowed in the interleaved state is allowed in its serial state -/
 theorem stepOk_right {i : Tid} {s s' : State} {op : Op} (hs : Sim i s s') (hok : StepOk s i op) :
     StepOk s' i op := by
   cases op <;> try trivial
@@ -170,6 +175,7 @@ theorem sim_self_local {i : Tid} {s s' : State} {op : Op} (hs : Sim i s s')
     | exact ⟨rfl, ⟨hm, hw, hc, ht, hl, ho, he⟩⟩
     | (refine ⟨by simp, ⟨?_, ?_, ?_, ?_, hl, ho, he⟩⟩ <;> (try simp only [upd2_apply, upd_apply]) <;> grind)
 
+/-- an id that no live object has is not a key of the registry -/
 theorem reg_fresh {s : State} (hi : Inv s) {k : Nat} (h : ∀ o, s.live o ≠ some k) :
     s.reg k = none := by
   cases hr : s.reg k with
@@ -216,6 +222,7 @@ theorem sim_self {i : Tid} {s s' : State} {op : Op} (hs : Sim i s s') (hi : Inv 
 
 /-! ## Runs -/
 
+/-- the simulation along a whole valid schedule -/
 theorem sim_run (i : Tid) (sc : Sched) : ∀ (s s' : State), Sim i s s' → Inv s → Inv s' →
     ValidFrom s Cfg.code sc →
     obsOf i (run Cfg.code s sc).2 = obsOf i (run Cfg.code s' (proj i sc)).2 ∧
